@@ -93,4 +93,17 @@ CHECKS.update({
    technique="TLA+ refinement model checking (TLC, exhaustive + simulation) + trace validation of real unix_io histories and threaded bitmap loads"),
 })
 HOOK_COMMITS += ["e83db2f9", "a9b77b7d"]
+CHECKS.update({
+ "C12": dict(level="model_checking",
+   text="TLC model-checks UndoIo.tla (transcription of lib/ext2fs/undo_io.c and misc/e2undo.c on a device of granules: U1 write-ahead / exactly once, U2 e2undo restores the original device over its "
+        "original length incl. unfinished records, U3 every key in the unit the header announces, R1/R2 damaged files refused without a write and -n never writes, Layout). API level: operation "
+        "histories run through undo_io_manager over unix_io (harness/undodrv.c), then the real e2undo; every call is a line (undo file as found on disk by the driver's own reader) validated by "
+        "TLC against Trace_UndoIo with all invariants after every line. Tool level: every tool with -z, single runs and chains into one undo file, recorded by iotrace.so on device and undo file "
+        "and validated against Trace_UndoRun (write-ahead order, exactly once, unit), then e2undo must restore the device byte-exactly. Damage sweep: bit flips over checksummed bytes of undo "
+        "files must be refused without any write.",
+   note="Trusted: TLC, harness/undodrv.c's reader of the undo format, iotrace.so. Two unrepaired deviations of the tree (DevAbsTiling, DevChanUnits: their repair changes what tests/u_mke2fs_opt_offset "
+        "documents) are known findings: conformance runs against the specification with these two switched on, a history in which a property invariant then fails is reported as the known finding, "
+        "a history the literal model does not explain is a VIOLATION; in the 8 listed tool scenarios the first invariant failure hides later events of the same scenario.",
+   technique="TLA+ model checking (TLC) of the undo protocol + trace validation of API histories and of recorded system-call streams of every -z tool"),
+})
 NA = {}
